@@ -1,6 +1,6 @@
 import BM.Props.C09
 import BM.Props.SrcPin.C09
-import BM.Props.OracleModel
+import BM.Props.OracleModelC09
 /- Top module of property C09: its theorems (BM.Props.C09) and the statement of which units of /repo's
    source its model and proofs were written against (BM/Props/SrcPin/C09.lean, re-checked against the
    regenerated fingerprints on every run).  Only `./check C09` builds this module, so a change to a
